@@ -126,6 +126,19 @@ Theorem C15_ts_item_partial : forall (uc : unicode) (cfg : ts_config) it st text
 Proof. exact Proofs.C15.C15_ts_item_partial. Qed.
 Print Assumptions C15_ts_item_partial.
 
+(* ---- Scala, every declaration the model renders (type alias, case class with its members, empty class,
+   sealed trait + companion object with its variants, helper aliases): code parts and comment fragments
+   whose doc strings are exactly the declaration's (type doc, then member / variant docs, in print
+   order); contained iff all are safe_sc, given neutral code parts (partial as above) ---- *)
+Theorem C15_sc_render_partial : forall d : sc_decl,
+  exists parts,
+    sc_render_decl d = text_of (c15_file_pieces C15sc parts) /\
+    docs_of (c15_file_pieces C15sc parts) = Proofs.C15.sc_decl_docs d /\
+    (Forall (c15_code_neutral C15sc) parts ->
+     c15_contained C15sc LCode (mark (c15_file_pieces C15sc parts)) = forallb safe_sc (Proofs.C15.sc_decl_docs d)).
+Proof. exact Proofs.C15.C15_sc_render_partial. Qed.
+Print Assumptions C15_sc_render_partial.
+
 (* ---- the unrestricted statement is false of the faithful model: one witness per language.  A struct
    whose doc string is `alpha<LF>beta` (what `/** alpha<LF>beta */` arrives as), `alpha */ beta`,
    alpha, three double quotes, beta: the generator reproduces the doc string and part of it is read as code. ---- *)
